@@ -46,6 +46,8 @@ type explorer struct {
 	opFilter      func(op string) bool
 	cursorCommits bool
 
+	mergedTransitions int64 // transitions into already-seen transaction states, executed and checked
+
 	memo map[string]int // committed-state digest -> largest remaining depth expanded
 
 	// counters
@@ -282,6 +284,39 @@ func (e *explorer) inner(in *inst, prefix []event, rem int, rw bool, top bool) [
 				tm2 := modelStep(n.tm, op)
 				dg := tm2.digest()
 				if seen[dg] {
+					// a transition into a transaction state that was already reached by a shorter
+					// history: not expanded again, but a mutating operation is still executed on the
+					// implementation and checked (a put followed by a delete must look like the
+					// delete alone — the model says so, the implementation has to agree)
+					if op[0] == 'c' || (top && hashMod(dg+"|"+strings.Join(n.body, ",")+"|"+op, e.nshards) != e.shard) {
+						continue
+					}
+					in.hist = append([]string{}, base...)
+					in.quiet = true
+					in.begin(rw)
+					in.quiet, in.lite = false, true
+					for _, o := range n.body {
+						in.applyOp(o)
+					}
+					in.lite = false
+					if len(in.fails) > 0 {
+						in.fails = in.fails[:0]
+						in.abort()
+						e.pruned++
+						continue
+					}
+					in.applyOp(op)
+					e.transitions++
+					e.mergedTransitions++
+					if in.tm.digest() != dg {
+						panic(fmt.Sprintf("engine: model simulation and execution disagree after %v + %s:\n%s\n%s", n.body, op, in.tm.digest(), dg))
+					}
+					e.record(in)
+					in.abort()
+					e.record(in)
+					if e.tainted {
+						return commits
+					}
 					continue
 				}
 				seen[dg] = true
